@@ -194,8 +194,36 @@ def run(ctx, rep):
     rep.note("status_mapping_cases", n_cases)
     rep.check(not bad, "R4", key(pc, None, "status mapping over local status x bet id x stream status (%d cases)" % n_cases), pc,
               None, "; ".join(bad[:4]))
+    # the bet id of an async placement is picked up BEFORE the status mapping: the mapping of a PENDING order is
+    # conditional on the bet id, so a pick-up after it skips the mapping in the very call that delivers the id (an
+    # order that is already complete at the exchange then stays PENDING until another update arrives - if one does)
+    st_conds = [n for n in cfgp.live_nodes() if n.kind == "cond" and utext(n.exprs[0]).startswith("order.status == OrderStatus.")]
+    id_stores = [n for n in cfgp.live_nodes() if n.kind == "stmt" and isinstance(n.ast, ast.Assign)
+                 and "order.bet_id" in [utext(t) for t in n.ast.targets]]
+    late = [n for n in id_stores if any(n.id in cfgp.reachable(c_.id, include_src=False) for c_ in st_conds)]
+    rep.check(bool(id_stores) and not late, "R4", key(pc, None, "the async bet id is picked up before the status mapping"), pc,
+              late[0].ast if late else None)
     from rules.c03 import bet_id_writers
     bet_id_writers(ctx, rep, "R4")
+    # every exchange update is applied to the order looked up FOR THAT UPDATE: on every way through one iteration
+    # of the batch loop the variable handed to the per-order step is bound inside that iteration (a binding carried
+    # over from the previous update applies an unknown reference's message to the previous update's order)
+    for fq, step in (("process.process_current_orders", "process_current_order"),
+                     ("process.process_betdaq_current_orders", "process_betdaq_current_order")):
+        bf_ = prog.func(fq)
+        cfgb_ = ctx.cfg(bf_)
+        for un, uc in node_calls(cfgb_, step):
+            var = utext(uc.args[0]) if uc.args else None
+            loops_ = [lp for lp in walk_nodes(bf_.node.body, ast.For) if uc in walk_calls(lp.body)]
+            good_ = bool(loops_) and var is not None
+            if good_:
+                outer_ = loops_[0]
+                hd_ = [m for m in cfgb_.live_nodes() if m.kind == "for" and m.ast is outer_][0]
+                st_ = [m for l, m in hd_.succ if l == "iter"][0]
+                binds_ = {m.id for m in cfgb_.live_nodes() if m.kind == "stmt" and isinstance(m.ast, ast.Assign)
+                          and var in [utext(t) for t in m.ast.targets] and m.ast in list(ast.walk(outer_))}
+                good_ = bool(binds_) and (st_ in binds_ or cfgb_.all_paths_pass(st_, un.id, binds_, blocked_nodes={hd_.id}))
+            rep.check(good_, "R4", key(bf_, uc, "the order updated is the one looked up for this update"), bf_, uc)
     pcall = node_calls(cfg, "process_current_order")
     comp = node_calls(cfg, "complete_order")
     good = len(pcall) == 1 and len(comp) == 1 and cfg.dominates(pcall[0][0].id, comp[0][0].id)
